@@ -32,6 +32,7 @@ class Sc:
         self.log = []
         self.failures = []
         self.tainted_ws = set()  # texts re-touched whitespace-only after being committed as AI (known finding)
+        self.overlap = False     # a later commit of the rewritten range touches a file an earlier one touched
 
     # ------------------------------------------------------------ content helpers
     def fresh(self, who):
@@ -157,13 +158,21 @@ class Sc:
             self.write(p, [self.fresh("human") for _ in range(nlines)])
         self.commit("base")
 
-    def feature_commits(self, n, files=None, where="middle"):
+    def feature_commits(self, n, files=None, where="middle", disjoint=False):
+        """n commits; with disjoint=True commit i only touches file i (no later commit of the range
+        rewrites lines next to an earlier commit's AI lines)."""
         shas = []
+        self.touched = []
         for i in range(n):
+            t = set()
             for _ in range(1 + self.rng.below(2)):
                 who = self.rng.pick(["s1", "s2", "s1", "human"])
-                self.edit(who, self.rng.pick(files or self.files), where=where)
+                p = (files or self.files)[i % len(files or self.files)] if disjoint else self.rng.pick(files or self.files)
+                self.edit(who, p, where=where)
+                t.add(p)
+            self.touched.append(t)
             shas.append(self.commit(f"feat {i}"))
+        self.overlap = any(a & b for k, a in enumerate(self.touched) for b in self.touched[k + 1:])
         return shas
 
     def upstream_commits(self, n, mode):
@@ -181,10 +190,10 @@ class Sc:
 
     def t_rebase(self, interactive=None, onto=False):
         rng = self.rng
-        self.base()
+        self.base(nfiles=3)
         self.git("switch", "-q", "-c", "feature")
         n = 2 + rng.below(2)
-        self.feature_commits(n)
+        self.feature_commits(n, disjoint=rng.chance(1, 2))
         self.git("switch", "-q", "main")
         mode = rng.pick(["other-file", "above", "below", "same-file-both"])
         self.upstream_commits(1 + rng.below(2), mode)
@@ -389,6 +398,16 @@ TEMPLATES = [
 ]
 
 
+def family(tname, sc):
+    """failure-signature family: the operation, refined by the history shape that matters"""
+    if tname.startswith("rebase") or tname.startswith("conflict"):
+        base = "rebase-conflict-" + tname.split("-", 1)[1] if tname.startswith("conflict") else "rebase"
+        return base + ("[range-rewrites-own-files]" if sc.overlap or tname.startswith("conflict") else "[disjoint-files]")
+    if tname.startswith("cherry-pick"):
+        return tname + ("[range-rewrites-own-files]" if sc.overlap and tname == "cherry-pick-range" else "")
+    return tname
+
+
 def run_one(args):
     seed, tname = args
     fn = dict(TEMPLATES)[tname]
@@ -396,7 +415,8 @@ def run_one(args):
         with e2e.Env() as env:
             sc = Sc(env, seed)
             tag = fn(sc)
-            return tname, tag, sc.failures, sc.log
+            fam = family(tname, sc)
+            return tname, tag, [(f"{fam}:{sig}", d) for sig, d in sc.failures], sc.log
     except Exception as ex:
         return tname, "exception", [("runner-exception", {"error": repr(ex), "trace": traceback.format_exc()[-1500:]})], []
 
@@ -411,11 +431,10 @@ def phase(res, seeds, threads=16):
         res.sample({"seed": seed, "template": tname, "log": log[:14]}, cap=3)
         seen = set()
         for sig, d in failures:
-            full = f"{tname}:{sig}"
-            if full in seen:
+            if sig in seen:
                 continue
-            seen.add(full)
-            res.oracle_failure(full, {"seed": seed, "template": tname, "variant": tag, "detail": d, "log": log}, what=f"end-to-end oracle {sig} in template {tname}")
+            seen.add(sig)
+            res.oracle_failure(sig, {"seed": seed, "template": tname, "variant": tag, "detail": d, "log": log}, what=f"end-to-end oracle {sig} in template {tname}")
 
 
 def run(tier, seed):
